@@ -165,12 +165,12 @@ def main(tier, seed, only=None):
     tot = {"runs": 0, "changed": 0, "budget": 0, "b": 0}
     if not only or only == "a":
         if tier == "quick":
-            sets = [("reuse-family", list(reuse_family())),
+            sets = [("reuse-family", list(reuse_family())), ("vocabulary-family", families.vocabulary_family()),
                     ("tree(CORE,3)", list(B.tree(B.CORE, 3))), ("tree(MIXED,3)", list(B.tree(B.MIXED, 3))),
                     ("rule-family(1)/4", list(families.rule_family(1))[::4]),
                     ("mem-family(2)/2", list(families.mem_family(2))[::2])]
         else:
-            sets = [("reuse-family", list(reuse_family())),
+            sets = [("reuse-family", list(reuse_family())), ("vocabulary-family", families.vocabulary_family()),
                     ("tree(CORE,4)", list(B.tree(B.CORE, 4))), ("tree(MIXED,4)", list(B.tree(B.MIXED, 4))),
                     ("rule-family(1)", list(families.rule_family(1))), ("mem-family(2)", list(families.mem_family(2)))]
 
